@@ -250,7 +250,7 @@ def sleep_scene(seed, ntree=(3, 6), jac="auto", cone="pyramidal", sleep=True, to
       roots.append((name2, "box", [], f"s{k}"))
     elif kind == "cart":
       bodies.append(
-        f'<body name="{name}" pos="{x:.4g} {y:.4g} .08"><joint name="ja{k}" type="slide" axis="1 0 0" damping="{damp}"{fl}/>'
+        f'<body name="{name}" pos="{x:.4g} {y:.4g} .095"><joint name="ja{k}" type="slide" axis="1 0 0" damping="{damp}"{fl}/>'
         f'<geom type="box" size=".08 .08 .08" mass="1"/><site name="s{k}" pos="0 0 .08"/>'
         f'<body pos="0 0 .12"><joint name="jb{k}" type="hinge" axis="0 1 0" damping="{damp}" limited="true" range="-60 60"/>'
         f'<geom type="capsule" size=".03" fromto="0 0 0 0 0 .2" mass=".2"/></body></body>'
